@@ -26,7 +26,21 @@ P = {
             "returns has escaped the (atomic) handler = mismatch, the store at handler return is compared with the store "
             "after everything has run, the property is judged on the latter (failed peer still in the sent list, bundle "
             "not pending); histories with one failing part-file write (the directory of the part files is away for the "
-            "n-th Push of the history). After every event: per-peer send log, and known / pending / sent list of every bundle handed "
+            "n-th Push of the history); Core configurations: NewCore with and without inspectAllBundles (first event (conf k) of a history; "
+            "the harness constructs the Core itself) x received bundles in transit that carry the administrative-record flag with "
+            "nine payload kinds (status reports about an unknown bundle that this implementation reads, a status report with an "
+            "unknown reason code, record types 3 and 4, no payload bytes, non-CBOR bytes, a record cut off after its type, a "
+            "3-element array) for a far node / n1 / n4, relay connected before or after, retries, further peers, restart, the "
+            "destinations, for every algorithm x both settings x both shapes, plus random histories under either setting in which "
+            "half of the received in-transit bundles are such records (rule unchanged: the flag and the payload are no cause for "
+            "refusal - stored, pending, kept under epidemic after a relay, offered to new peers, delivered on appearance); large "
+            "backlogs: 100, 128, 129, 200, 256, 257 (quick: one size per algorithm, rotating with the seed, and one of 130..249 for "
+            "epidemic; thorough: every size for every algorithm, 500 and 1000 for epidemic, spray, dtlsr) received bundles waiting at "
+            "once, most for a node that never appears, a few anywhere in the order for n1 / n4, loaded with nobody or with one "
+            "relay connected, then retry ticks, n1, new relays, restart, n4 (rules as always: transmitted to the destination when it "
+            "appears (scf.direct.not-sent) and in every retry pass while it is connected (scf.direct.not-retried), offered to every new "
+            "epidemic peer (scf.epidemic.not-offered), however many bundles wait; in a history with more than 48 bundles the record of "
+            "a submit / receive lists the new bundle's status only, every other event lists all). After every event: per-peer send log, and known / pending / sent list of every bundle handed "
             "in. Each history is replayed through Model.scf_step (trace inclusion, store status compared) and judged by the "
             "property checker on the log alone. distinct = distinct case bodies",
     "assumptions": ["bundle IDs are distinct (a Submit whose ID is already stored is not a step of the model; the volatile "
@@ -42,7 +56,10 @@ P = {
                      "clock: lifetimes are 24 h or long expired, a history runs for < 20 s (slower ones are dropped and counted)",
                      "pkg/storage/verif_export_scf.go sets badger's memtable size (store tuning only); the store "
                      "directory is on /dev/shm when available",
-                     "harness/corelib.go mock convergence senders; pkg/routing/verif_export.go synchronous drivers",
+                     "harness/corelib.go mock convergence senders; pkg/routing/verif_export.go synchronous drivers; harness/scf.go scfOpen "
+                     "(routing.NewCore with the inspectAllBundles flag, cron stopped) in place of corelib's Node.open",
+                     "bundles flagged as administrative record are recognised in the send log and the store by their bundle ID "
+                     "(their payload is the record), all others by the tag in their payload",
                      "harness/scf_sched.go: schedule points are recognised by the texts of the Core's log messages "
                      "(a changed text makes the scenario powerless, not alarming; the tags sched-* show what was reached); "
                      "the sender goroutine of a failed send is recognised by its goroutine id"],
